@@ -386,6 +386,202 @@ pub fn exec_confirmed(c: &Case) -> (CaseResult, u32) {
     (last, 2)
 }
 
+
+// ---------------------------------------------------------------------------------------------- empty replies
+
+/// "All payload sizes from 0": a target that answers with an *empty* datagram. The content-keyed oracle above cannot see
+/// such a reply (it names neither its target nor its request), so it has a sub-check of its own.
+#[derive(Clone, Debug, Serialize, Deserialize)]
+pub struct EmptyCase {
+    pub spec: Spec,
+    pub n: u8,
+    pub by_name: bool,
+}
+
+pub struct EmptyReplies;
+
+fn empty_once(c: &EmptyCase) -> (Option<FlowFail>, Vec<String>) {
+    let mut labels = vec![format!("combo:{}", c.spec.short())];
+    let mut spec = c.spec.clone();
+    spec.udp = true;
+    let mut cl = match Cluster::start(&spec) {
+        Ok(cl) => cl,
+        Err(e) => return (Some(soft("start-up", format!("cluster for {} did not start: {}", spec.short(), e))), labels),
+    };
+    let target = UdpTarget::spawn(0, true);
+    let app = App::new();
+    let client = SocketAddr::V4(SocketAddrV4::new(Ipv4Addr::LOCALHOST, cl.client_port));
+    let taddr = target_addr(target.port, c.by_name);
+    let fast = rt::failed_already();
+    // the path works at all (a non-empty reply comes back)? otherwise this sub-check has nothing to say
+    let mut warm = false;
+    for k in 0..3 {
+        let p = format!("warm-up-{}", k).into_bytes();
+        let _ = app.sock.send_to(&net::socks5_udp(&taddr, &p), client);
+        let t0 = Instant::now();
+        while t0.elapsed() < Duration::from_millis(if fast { 500 } else { 1500 }) {
+            if app.got.lock().unwrap().iter().any(|d| net::parse_socks5_udp(d).map(|(_, b)| b == net::reply_for(0, &p)).unwrap_or(false)) {
+                warm = true;
+                break;
+            }
+            std::thread::sleep(Duration::from_millis(3));
+        }
+        if warm {
+            break;
+        }
+    }
+    if !warm {
+        labels.push("path-does-not-answer-at-all".into());
+        return (None, labels);
+    }
+    let mut sent = 0usize;
+    let count_empty = |app: &App| -> Result<usize, FlowFail> {
+        let mut n = 0;
+        for d in app.got.lock().unwrap().iter() {
+            let Some((label, body)) = net::parse_socks5_udp(d) else {
+                return Err(hard("reply-malformed", format!("the application received a datagram that is not a SOCKS5-UDP reply: {}", crate::ev::hex(&d[..d.len().min(24)]))));
+            };
+            if !body.is_empty() {
+                if body.first() == Some(&b'R') {
+                    continue; // warm-up answers
+                }
+                return Err(hard("reply-altered", format!("the target answered with empty datagrams; the application received {} payload bytes", body.len())));
+            }
+            let ok = match &label {
+                Addr::V4(ip, port) => *ip == [127, 0, 0, 1] && *port == target.port,
+                Addr::Name(nm, port) => nm == b"localhost" && *port == target.port,
+                _ => false,
+            };
+            if !ok {
+                return Err(hard("reply-wrong-label", format!("an empty reply of the target on port {} arrived labelled {:?}", target.port, label)));
+            }
+            n += 1;
+        }
+        Ok(n)
+    };
+    let mut got = 0;
+    for round in 0..3 {
+        for k in 0..c.n.max(1) {
+            let p = format!("EMPTYREPLY#{}#{}", round, k).into_bytes();
+            let _ = app.sock.send_to(&net::socks5_udp(&taddr, &p), client);
+            sent += 1;
+            std::thread::sleep(Duration::from_millis(25));
+        }
+        let t0 = Instant::now();
+        while t0.elapsed() < Duration::from_millis(if fast { 500 } else { 1200 }) {
+            match count_empty(&app) {
+                Ok(n) => got = n,
+                Err(f) => return (Some(f), labels),
+            }
+            if got >= sent {
+                break;
+            }
+            std::thread::sleep(Duration::from_millis(5));
+        }
+        if got > 0 {
+            break;
+        }
+    }
+    labels.push(format!("empty-replies-delivered:{}", if got == sent { "all" } else if got > 0 { "some" } else { "none" }));
+    let reached = target.received().iter().filter(|(_, d)| d.starts_with(b"EMPTYREPLY")).count();
+    let mut fail = None;
+    // VMess has no representation for an empty datagram (an empty chunk is the end-of-stream mark, DESIGN Appendix A.3):
+    // delivery is not demanded there, only that the session is not disturbed
+    let representable = !matches!(c.spec.proto, Proto::Vmess(_));
+    // whatever happened to the empty replies, the session goes on: a later ordinary datagram is answered
+    let mut after = false;
+    for k in 0..3 {
+        let p = format!("after-empty-{}", k).into_bytes();
+        let _ = app.sock.send_to(&net::socks5_udp(&taddr, &p), client);
+        let t0 = Instant::now();
+        while t0.elapsed() < Duration::from_millis(if fast { 500 } else { 1500 }) {
+            if app.got.lock().unwrap().iter().any(|d| net::parse_socks5_udp(d).map(|(_, b)| b == net::reply_for(0, &p)).unwrap_or(false)) {
+                after = true;
+                break;
+            }
+            std::thread::sleep(Duration::from_millis(3));
+        }
+        if after {
+            break;
+        }
+    }
+    if !after {
+        fail = Some(soft("session-dead-after-empty-reply", format!("after {} empty replies of the target an ordinary datagram of the same application to the same target was not answered in three attempts (it was before)", reached)));
+    }
+    if got > sent {
+        fail = Some(hard("reply-duplicate", format!("the target sent {} empty replies at most, the application received {}", sent, got)));
+    } else if got == 0 && representable && fail.is_none() {
+        fail = Some(soft(
+            "empty-reply-not-delivered",
+            format!("{} requests reached the target and each was answered with an empty datagram; none of the empty replies reached the application in three rounds ({} requests sent), while a non-empty reply on the same path did", reached, sent),
+        ));
+    }
+    if let Err(h) = cl.health() {
+        fail = Some(hard("process-or-task-died", h));
+    }
+    if let Some(f) = &mut fail {
+        f.msg = format!("{} [{}]\n{}", f.msg, spec.short(), crate::ev::truncate(&cl.logs(6), 1200));
+    }
+    (fail, labels)
+}
+
+impl SubCheck for EmptyReplies {
+    type Case = EmptyCase;
+    fn name(&self) -> &'static str {
+        "empty-replies"
+    }
+    fn strategy(&self, _tier: Tier) -> BoxedStrategy<EmptyCase> {
+        (proptest::sample::select(udp_combos()), 1u8..4, any::<bool>(), 1u64..1_000_000, 2u8..8)
+            .prop_map(|((proto, transport, n_users), n, by_name, seed, workers)| {
+                let mut spec = Spec::new(proto, transport);
+                spec.udp = true;
+                spec.n_users = n_users;
+                spec.seed = seed;
+                spec.workers = workers;
+                EmptyCase { spec, n, by_name }
+            })
+            .boxed()
+    }
+    fn workers(&self) -> usize {
+        (rt::threads() / 2).clamp(1, 8)
+    }
+    fn max_shrink_iters(&self) -> u32 {
+        12
+    }
+    fn confirm_runs(&self) -> u32 {
+        2
+    }
+    fn exec(&self, c: &EmptyCase) -> Outcome {
+        let (mut fail, mut labels) = empty_once(c);
+        if fail.as_ref().map(|f| f.soft).unwrap_or(false) && !rt::failed_already() {
+            let (f2, l2) = empty_once(c);
+            if f2.is_some() {
+                fail = f2;
+                labels = l2;
+            } else {
+                let (f3, mut l3) = empty_once(c);
+                if f3.is_none() {
+                    l3.push("deadline-miss-not-confirmed".into());
+                }
+                fail = f3;
+                labels = l3;
+            }
+        }
+        let mut out = Outcome::new();
+        let delivered = labels.iter().any(|l| l == "empty-replies-delivered:all" || l == "empty-replies-delivered:some");
+        for l in labels {
+            out.label(l);
+        }
+        if delivered {
+            out.nontrivial(format!("{}|{}|{}", c.spec.short(), c.n, c.by_name));
+        }
+        if let Some(f) = fail {
+            out.fail(format!("empty-replies/{}/{}", c.spec.proto.protocol_name(), f.sig), f.msg);
+        }
+        out
+    }
+}
+
 pub struct Datagrams;
 
 impl SubCheck for Datagrams {
@@ -424,7 +620,7 @@ impl SubCheck for Datagrams {
 }
 
 pub fn subs() -> Vec<Box<dyn DynSub>> {
-    vec![Box::new(Datagrams), Box::new(crate::props::c04_dgram::DgramCuts)]
+    vec![Box::new(Datagrams), Box::new(EmptyReplies), Box::new(crate::props::c04_dgram::DgramCuts)]
 }
 
 pub fn run(ctx: &mut PropCtx) {
@@ -447,5 +643,22 @@ pub fn run(ctx: &mut PropCtx) {
     ctx.note("matrix", "every UDP row of the README table (Shadowsocks x 7 ciphers, with a user table for the 2022 AES ciphers; VMess x 2 ciphers x 5 transports; Trojan x tls/wss/quic) in every run");
     rt::run_sub(ctx, &Datagrams, ctx.tier.pick(150, 2000));
     // datagram-in-stream framings at codec level (VMess UDP, Trojan UDP): boundaries survive any segmentation
+    // empty replies: every README UDP row in every run
+    let empties: Vec<EmptyCase> = udp_combos()
+        .into_iter()
+        .enumerate()
+        .map(|(i, (proto, transport, n_users))| {
+            let mut spec = Spec::new(proto, transport);
+            spec.udp = true;
+            spec.n_users = n_users;
+            spec.seed = ctx.seed.wrapping_mul(131) + i as u64 + 1;
+            spec.workers = 2 + (i % 5) as u8;
+            EmptyCase { spec, n: 1 + (i % 3) as u8, by_name: (i as u64 + ctx.seed) % 3 == 0 }
+        })
+        .collect();
+    rt::run_list(ctx, &EmptyReplies, "empty-replies-matrix", empties);
+    if ctx.tier == Tier::Thorough {
+        rt::run_sub(ctx, &EmptyReplies, 200);
+    }
     rt::run_sub(ctx, &crate::props::c04_dgram::DgramCuts, ctx.tier.pick(20_000, 300_000));
 }
